@@ -1680,7 +1680,18 @@ def check_versions(R):
             R.cmp("version:libtool", dict(key=key, meson=a.group(1), configure=b.group(1)))
             if a.group(1) != b.group(1):
                 st.violation("version:libtool:%s" % key, dict(file="configure.ac", key=key), expected="meson.build lib_%s = %s" % (key, a.group(1)), got="LIB_%s=%s" % (key.upper(), b.group(1)))
-    ps = getattr(R, "pascal_soname", None)
+    # every platform branch of the Pascal unit names the library file it imports from: libxrl.<N>.dylib, libxrl.so.<N>, libxrl-<N>.dll
+    ptxt = read(C.repo, "pascal/xraylib.pas")
+    if ptxt and "current" in tri and "age" in tri:
+        for m in re.finditer(r"External_library\s*=\s*'([^']+)'", ptxt, re.I):
+            nm = re.search(r"libxrl[.-](?:so\.)?(\d+)", m.group(1))
+            if not nm:
+                continue
+            R.cmp("version:soname", dict(pascal=m.group(1)))
+            if int(nm.group(1)) != tri["current"] - tri["age"]:
+                st.violation("version:pascal/xraylib.pas:soname", dict(file="pascal/xraylib.pas", line=lineno(ptxt, m.start()), library=m.group(1)),
+                             expected="library version %d (lib_current - lib_age of meson.build)" % (tri["current"] - tri["age"]), got=m.group(1))
+    ps = None
     if ps and "current" in tri and "age" in tri:
         R.cmp("version:soname", dict(pascal=ps[0], meson=tri["current"] - tri["age"]))
         if ps[0] != tri["current"] - tri["age"]:
